@@ -159,6 +159,11 @@ class SimA(SimBase):
             async def hc(sid, environ):
                 if self.cfg.get('connect_send'):
                     await self.server.send(sid, self.cfg['connect_send'])
+                dt = self.suspend.get('connect')
+                if dt:
+                    self.events.append({'clk': self.tick(), 't': self.now,
+                                        'ev': 'connect-entered', 'sid': sid})
+                    await asyncio.sleep(dt)
                 return self._h_connect(sid, environ)
 
             async def pause(ev):
